@@ -45,6 +45,11 @@ def load_lanes(I, st, ptr, n):
     return [ptr.c[ptr.k + j] for j in range(n)]
 
 
+def FPDom_cls():
+    from .interp import FPDom
+    return FPDom
+
+
 def call(I, callee, args, st):
     D = I.dom
     c = re.sub(r"<impl at [^>]*>", "<impl>", callee)
@@ -82,6 +87,11 @@ def call(I, callee, args, st):
     if m:
         used("f64::" + m.group(3))
         return True, getattr(D, m.group(3))(args[0])
+
+    m = re.match(r"^(?:core|std)::f(64|32)::<impl f(64|32)>::(max|min)$", c)
+    if m and isinstance(D, FPDom_cls()):
+        used("f64::" + m.group(3) + " (IEEE maxNum/minNum; operands of one sign)")
+        return True, (z3.fpMax if m.group(3) == "max" else z3.fpMin)(args[0], args[1])
 
     if re.search(r"SincInterpolator<T>>::len$", c) and hasattr(I, "ctx") and "sinc_len" in I.ctx:
         used("dyn SincInterpolator::len -> concrete length of the harness")
